@@ -215,7 +215,9 @@ class YPPrologVisitor(prologVisitor):
 
     def _debug(self,*args):
         if self.context.debug_parser:
-            self.context.outf.write('# ' + " ".join([str(a) for a in args]) + '\n')
+            # every line of the message is a comment line (atoms may contain line breaks)
+            msg = " ".join([str(a) for a in args])
+            self.context.outf.write('# ' + '\n# '.join(re.split('\r\n|\r|\n', msg)) + '\n')
 
     def visitProgram(self,ctx):
         clauses = {}
